@@ -87,6 +87,8 @@ static void p0_run(uint64_t idx, vh_rng_t * rng) {
         if (idx % 3 == 1) { v->ctx->units = user_units; u = &user_units[vh_below(rng, 9)]; vh_count("number.user_units_table", 1); }
         num.special = FALSE; num.content.value = pick_double(rng);
         num.unit = vh_chance(rng, 1, 8) ? SCPI_UNIT_NONE : u->unit; num.base = 10;
+        /* a number as SCPI_ParamNumber delivers it for #H / #Q / #B data: non-negative integral value, no unit, base 16 / 8 / 2 */
+        if (idx % 5 == 2) { static const int8_t bases[] = { 16, 8, 2, 16 }; num.base = bases[vh_below(rng, 4)]; num.unit = SCPI_UNIT_NONE; num.content.value = (double) (vh_rand(rng) >> vh_below(rng, 64)); vh_count("number.nondecimal_base", 1); }
     }
     memset(big, 0, sizeof big);
     n = SCPI_NumberToStr(v->ctx, scpi_special_numbers_def, &num, big, sizeof big);
@@ -239,6 +241,6 @@ int main(int argc, char ** argv) {
         { "IntToStr", p3_count, p3_run },
     };
     vh_require("post.fits"); vh_require("post.exact"); vh_require("post.truncated");
-    vh_require("number.with_unit"); vh_require("number.user_units_table"); vh_require("number.special"); vh_require("copytext.truncated"); vh_require("copytext.fits"); vh_require("copytext.null_copy_len.calls");
+    vh_require("number.with_unit"); vh_require("number.nondecimal_base"); vh_require("number.user_units_table"); vh_require("number.special"); vh_require("copytext.truncated"); vh_require("copytext.fits"); vh_require("copytext.null_copy_len.calls");
     return vh_main(argc, argv, "C15", phases, 4);
 }
